@@ -243,7 +243,7 @@ func compileClass(s string) string {
 }
 
 func pinnedC01() []*pgen.Case {
-	return []*pgen.Case{pgen.PinnedPkgShadow("pin_pkg_shadow"), pgen.PinnedHelperRedeclared("pin_helper_redeclared"), pinnedNonComparable("pin_update_noncomparable")}
+	return []*pgen.Case{pgen.PinnedPkgShadow("pin_pkg_shadow"), pgen.PinnedHelperRedeclared("pin_helper_redeclared"), pinnedNonComparable("pin_update_noncomparable"), pinnedGlobalFile("pin_global_file")}
 }
 
 // C18: emitted code is reflection-free, stateless and imports only what it needs.
@@ -365,5 +365,18 @@ func c18Probes() []*pgen.Case {
 func mkUnsafe() *pgen.Case {
 	c := pgen.RawCase("probe_unsafe_field", map[string]string{"p/input.go": "package p\n\nimport \"unsafe\"\n\ntype In struct{ P unsafe.Pointer; N int }\ntype Out struct{ P unsafe.Pointer; N int }\n\n// goverter:converter\ntype Converter interface {\n\t// goverter:update target\n\t// goverter:update:ignoreZeroValueField:basic\n\tUpdate(source In, target *Out)\n\tConvert(source In) Out\n}\n"}, nil, []string{"./p"})
 	c.Feature("probe", "unsafe_field")
+	return c
+}
+
+// pinnedGlobalFile: a CLI-level output:file applies to converters of several packages; the packages already at those
+// locations have names that differ from their directory name and must be adopted by every emitted file.
+func pinnedGlobalFile(name string) *pgen.Case {
+	files := map[string]string{}
+	for _, pk := range []string{"alpha", "beta", "gamma"} {
+		files[pk+"/input.go"] = "package " + pk + "\n\ntype In struct{ V int }\ntype Out struct{ V int }\n\n// goverter:converter\ntype Converter interface {\n\tConvert(source In) Out\n}\n"
+		files[pk+"/out/existing.go"] = "package " + pk + "conv\n\ntype Existing struct{}\n"
+	}
+	c := pgen.RawCase(name, files, []string{"-g", "output:file ./out/gen.go"}, []string{"./alpha", "./beta", "./gamma"})
+	c.Feature("tag", "pinned")
 	return c
 }
